@@ -109,7 +109,9 @@ def step (sh : Sh) (t : Tid) (pc : Pc) (op : Op) : List (Sh × Pc) :=
     if w.gen ≠ g then [(sh, .wRet true (some (g0, g)))]
     else [({ sh with sleepers := t :: sh.sleepers }, .wSleep g0 g)]
   | .wSleep g0 g =>
-    (if t ∈ sh.woken then [({ sh with woken := rm sh.woken t, sleepers := rm sh.sleepers t }, Pc.wSlow g0 g)] else []) ++
+    -- the address wait returns - because the thread was woken, or spuriously, or because a signal handler interrupted it:
+    -- the caller goes round its loop and re-reads the generation
+    [({ sh with woken := rm sh.woken t, sleepers := rm sh.sleepers t }, Pc.wSlow g0 g)] ++
     -- timeout
     [({ sh with woken := rm sh.woken t, sleepers := rm sh.sleepers t },
       if w.gen ≠ g then Pc.wRet true (some (g0, g)) else Pc.wRet false (some (g0, g)))]
